@@ -1,6 +1,6 @@
 """C05 - guaranteed sends are eventually delivered, for every size, from both APIs."""
 import collections
-from checks.common import UdpCheck, gen_traffic, limits, ConnectionStatus, client_addr
+from checks.common import UdpCheck, gen_traffic, limits, ConnectionStatus, client_addr, FragExpiryProbe
 
 
 def lenclass(mtu, n):
@@ -57,6 +57,10 @@ class C05(UdpCheck):
     def gen(self, rng, tier, i):
         return gen_traffic(rng, i, tier, retries=(-1,), cb_p=0.3)
 
+    def monitors(self, case):
+        self.fx = FragExpiryProbe()
+        return [self.fx]
+
     def judge(self, w, case):
         vs = []
         mtu = case["cfg"]["mtu"]
@@ -89,15 +93,12 @@ class C05(UdpCheck):
                 if dl[key] < n:
                     rec = first[key]
                     side = "server" if rec["who"] == "S" else "client"
-                    vs.append({"kind": "guaranteed_not_delivered", "key": "%s:%s" % (side, lenclass(mtu, rec["len"])),
+                    rx = w.conn_name(sconn if rec["who"] != "S" else cconn)
+                    cause, purged = self.fx.cause(w, rec, rx)
+                    vs.append({"kind": "guaranteed_not_delivered", "key": "%s:%s:%s" % (side, lenclass(mtu, rec["len"]), cause),
                                "detail": {"who": rec["who"], "api": rec["api"], "len": rec["len"], "t_sent": rec["t"],
-                                          "delivered": dl[key], "sent": n, "mtu": mtu, "end": w.k.now}})
-            for side, conn in (("client", cconn), ("server", sconn)):
-                if conn.outgoing_messages:
-                    m = conn.outgoing_messages[0]
-                    vs.append({"kind": "stuck_in_outgoing_queue",
-                               "key": "%s:%s:%s" % (side, m.type.name(), len(m.payload) - limits(mtu)["cap1"] if abs(len(m.payload) - limits(mtu)["cap1"]) < 16 else "len"),
-                               "detail": {"n": len(conn.outgoing_messages), "len0": len(m.payload), "type": m.type.name(), "mtu": mtu}})
+                                          "delivered": dl[key], "sent": n, "mtu": mtu, "end": w.k.now,
+                                          "purged": purged}})
         return vs
 
 
